@@ -178,6 +178,7 @@ class C09(F.Spec):
         me = case.meta
         fs = []
         for g in raw:
+            tick = [x for x in g if x.startswith("RSTICK ")]
             for x in g:
                 p = x.split()
                 if p[0] == "CALL" and p[1] == "value" and p[2] == "0":
@@ -185,6 +186,13 @@ class C09(F.Spec):
                     v = v - 256 if v > 127 else v
                     if not (v == -1 or 0 <= v <= 100):
                         fs.append(F.Finding("reported-out-of-range", "position %d reported to the server" % v))
+                    if me.get("tt") and len(p) > 5 and len(tick) == 1:
+                        # what is reported is the stored value (raw 100..10100 = 0..100 %) of the same callback
+                        f = dict(q.split("=") for q in tick[0].split()[2:])
+                        for name, rep, raw_v in (("position", v, int(f["pos"])), ("tilt", int(p[5]) - (256 if int(p[5]) > 127 else 0), int(f["tilt"]))):
+                            if 100 <= raw_v <= 10100 and abs(rep - (raw_v - 100) / 100.0) > 1.0:
+                                fs.append(F.Finding("reported-differs-from-stored", "%s stored %.2f %% but %d reported to the server" % (
+                                    name, (raw_v - 100) / 100.0, rep)))
         if me.get("kind") == "probe":
             last = None
             for g in raw:
@@ -232,7 +240,14 @@ class C09(F.Spec):
         behind = (final[0] - ep) if me["up"] else (ep - final[0])
         maxdt = max([int(o.split()[2]) for o in case.ops if o.startswith("rstick ")] or [0])
         fp = Fms - (me["tms"] if me["tt"] in (1, 3) else 0)
-        if me["tt"] in (1, 3) and tol_p < behind <= tol_p + 10000.0 * (maxdt / 1000.0) / fp:
+        # the recorded finding needs the motor to stop right behind the callback in which tilting completed (one more callback
+        # applies the remainder); a run that went on for longer and still lacks it is another matter
+        if me["tt"] == 1:
+            t_tilt = me["tms"] * 1000.0 * ((me["t0"] - 100) if me["up"] else (10100 - me["t0"])) / 10000.0
+            stopped_right_after = T - t_tilt <= 2 * maxdt
+        else:
+            stopped_right_after = True
+        if me["tt"] in (1, 3) and stopped_right_after and tol_p < behind <= tol_p + 10000.0 * (maxdt / 1000.0) / fp:
             fs.append(F.Finding("tilt-phase-remainder-lost",
                                 "mode %d %s: the callback interval in which tilting completed (intervals up to %d ms) is not applied to the "
                                 "position until the next callback and is discarded when the motor stops first: stored position %.2f %%, "
